@@ -1,5 +1,5 @@
 #!/usr/bin/env python3
-"""Lists every place where beff-core iterates a std::collections::HashMap-typed field or binding (syntactic, conservative)."""
+"""Lists every place where beff-core iterates a std::collections::HashMap- or HashSet-typed field or binding (syntactic, conservative)."""
 import glob
 import json
 import os
@@ -14,9 +14,9 @@ def sites():
     texts = {f: open(f).read() for f in files}
     names = set()
     for t in texts.values():
-        for m in re.finditer(r"\b(\w+)\s*:\s*(?:&(?:mut\s+)?)?HashMap<", t):
+        for m in re.finditer(r"\b(\w+)\s*:\s*(?:&(?:mut\s+)?)?Hash(?:Map|Set)<", t):
             names.add(m.group(1))
-        for m in re.finditer(r"let\s+(?:mut\s+)?(\w+)\s*(?::\s*HashMap<[^=]*)?=\s*HashMap::", t):
+        for m in re.finditer(r"let\s+(?:mut\s+)?(\w+)\s*(?::\s*Hash(?:Map|Set)<[^=]*)?=\s*Hash(?:Map|Set)::", t):
             names.add(m.group(1))
     out = []
     pat_for = re.compile(r"\bfor\b[^{;]*\bin\b[^{;]*\b(%s)\b" % "|".join(sorted(names))) if names else None
